@@ -11,7 +11,7 @@ CLAIM = ("Decided per explored history by executable oracles defined in Coq (Ora
          "to the code by the correspondence check. Partial: no proof yet that every model run satisfies name_documented.")
 THEOREMS = ["C16_stem_ext_roundtrip", "C16_doc_fixed_is_fixed", "C16_name_roundtrip"]
 TRUSTED = ["modelled, not verified: std::path::Path (file_stem, extension, parent, join), symlink/read_link"]
-ASSUMPTIONS = ["the start-time name part (use_timestamp) is exercised separately (known finding V1, see DESIGN.md)"]
+ASSUMPTIONS = ["with a start-time name part the listing and symlink oracles are not applied (the names oracle and the correspondence are)"]
 RULE = ("flw cases: all combinations of present/absent/empty basename and discriminant, suffix present/absent, all namings, rotation "
         "on/off, symlink on, cleanup with compression; directory snapshot + existing_log_files for random selectors after writes, "
         "rotations and at later virtual times; tryfrom cases: path strings (bare name, nested, dot files, several dots, no extension, "
@@ -26,7 +26,7 @@ def gen(rng, tier):
     if not rot and not base and not disc and sfx is None:
         base = b"a"          # without rotation the file name must not be empty
     naming = rng.choice(g.NAMINGS)
-    cfg = g.Cfg(base=base, disc=disc, sfx=sfx, crit=("s%d" % rng.choice([0, 6, 30])) if rot else None, naming=naming,
+    cfg = g.Cfg(base=base, disc=disc, sfx=sfx, ts=rng.random() < 0.25, crit=("s%d" % rng.choice([0, 6, 30])) if rot else None, naming=naming,
                 cleanup=rng.choice(["n", "n", "l2", "g1", "b1.1"]) if rot else "n", link=rng.random() < 0.6,
                 append=rng.random() < 0.3, cap=rng.choice([None, None, 16]))
     ops = ["B:" + cfg.token()]
